@@ -712,6 +712,7 @@ bool c04_metamorphic(const ref::Pos& rp, Tape& t, Report& rep)
 bool prop_C04(Tape& t, Report& rep)
 {
     br::init_engine(false);
+    if (t.chance(1, 40)) return us::run(t, rep, us::F_C04);
     int mode = t.weighted({4, 3, 2});
     if (mode == 0)
     {
@@ -846,6 +847,13 @@ bool prop_C07(Tape& t, Report& rep)
             rep.cls("c07:special_mate_pool_game");
         }
     }
+    else if (t.chance(1, 160))
+    {
+        // a game longer than the engine's 800-entry history buffer on ONE object: repetition answers after the buffer has
+        // been compacted must still see the recent half of the game
+        game = gen::long_game(t, &rep, 810, 900);
+        rep.cls("c07:game_longer_than_history_buffer");
+    }
     else if (t.chance(1, 8))
     {
         // the just-pushed pawn gives check and capturing it en passant is the only reply: "is it mate?" hinges on that move
@@ -940,13 +948,47 @@ bool prop_C07(Tape& t, Report& rep)
         return true;
     };
     if (!check_here()) return false;
+    // look-ahead with take-back on the live object: make a move (mates and stalemates first), ask there, unmake it, ask the
+    // parent again — answers must not depend on what was asked in between (per-object memos that unmake forgets to reset)
+    auto look_ahead = [&]() -> bool {
+        std::vector<ref::Move> lm = ref::legal_moves(g.cur);
+        if (lm.empty()) return true;
+        ref::Move pick = lm[t.choose(uint32_t(lm.size()))];
+        for (auto& m2 : lm)
+        {
+            ref::Pos q = ref::make(g.cur, m2);
+            if (ref::legal_moves(q).empty())
+            {
+                pick = m2;  // the child is mate or stalemate: the sharpest difference between child and parent
+                rep.cls("c07:look_ahead_into_mate_or_stalemate");
+                break;
+            }
+        }
+        ref::Game saved = g;
+        std::string savedPlayed = played;
+        Move em = pos.parse_uci(pick.uci());
+        MoveInfo info = pos.do_move(em);
+        g.play(pick);
+        played += " " + pick.uci();
+        if (!check_here()) return false;
+        pos.undo_move(em, info);
+        g = saved;
+        played = savedPlayed + " (" + pick.uci() + " made, asked, and taken back)";
+        rep.cls("c07:look_ahead_with_take_back");
+        bool ok = check_here();
+        played = savedPlayed;
+        return ok;
+    };
+    bool lookAheads = t.chance(1, 3);
     for (const auto& m : game.moves)
     {
         pos.do_move(pos.parse_uci(m.uci()));
         g.play(m);
         played += " " + m.uci();
         if (!check_here()) return false;
+        if (lookAheads && (ref::legal_moves(g.cur).size() < 6 || t.chance(1, 8)) && !look_ahead()) return false;
     }
+    if (lookAheads && !look_ahead()) return false;
     rep.cls("c07:plies", game.moves.size());
     return true;
 }
